@@ -20,7 +20,7 @@ PROPS = {
     'C04': dict(units=['driver', 'utils'],
                 claim='whitespace skipping is exactly the documented sets; the lexer is asked once at the skipped position with the whole rest of the buffer; the lexeme is exactly [current_it, current_it+len); a failure result yields one Unexpected character report',
                 assumptions=[LEXER, 'longest match/first-listed priority of the automaton itself: unit dfa (dfa_match/run); the union automaton built by merging is not verified (finding D10)']),
-    'C06': dict(units=['driver', 'stdex', 'utils'], all=['driver', 'stdex'],
+    'C06': dict(units=['driver', 'stdex', 'utils', 'regex_lexer'], all=['driver', 'stdex'],
                 claim='every CBMC safety check (bounds, pointer validity/overflow, signed/unsigned overflow, division) plus the logical bounds woven by R9/R7 on every parse-path function under its precondition; recovery pops and input discarding strictly progress',
                 assumptions=[L_PATH, L_IDS, TABLE_WF, LEXER, 'termination of a run of reductions that consume nothing (no reduce cycle in a conflict-free table) is not mechanised',
                              'std::vector / std::string stacks and buffers are trusted; the proof is for the cvector stacks']),
@@ -42,11 +42,11 @@ PROPS = {
     'C16': dict(units=['driver'], all=['driver'], static=[SF.c16_static],
                 claim='every contract states the same state change for verbose on and off (verbose only adds events); trace payloads (Shift to, Reduced using rule, Go to, Recognized) equal the action performed',
                 assumptions=['stream type: both no_stream and std::ostream lower to the ghost event sink (R10); text formatting is not verified', LEXER]),
-    'C17': dict(units=['utils'],
-                claim='find_str never returns a wrong or uninitialized index; string helpers stay inside their arguments',
+    'C17': dict(units=['utils', 'regex_lexer'],
+                claim='regex_lexer::match and its helpers read only the pattern array (terminator included) and refuse raw non-printable bytes, dangling backslashes and unterminated sets; find_str never returns a wrong or uninitialized index',
                 assumptions=['patterns are NUL-terminated arrays (cstring_buffer keeps the terminator at end())',
                              'grammar-level rejections (unbalanced group, leading quantifier, empty alternative, {}) rest on C01 applied to the regex grammar: not mechanised']),
-    'C18': dict(units=['driver'],
+    'C18': dict(units=['driver', 'regex_lexer'],
                 claim='get_current_term under the weakest custom-lexer contract: asked once per needed term after the same whitespace skipping, index used unchanged, exactly len bytes pending, default result => Unexpected character',
                 assumptions=[LEXER, 'custom_term value typing is C++ template machinery outside the verified text']),
 }
